@@ -5,14 +5,19 @@
 //
 // prints one observation per line for the model driver (ocaml/runner_main.ml):
 //
-//	TR <scenario> <tid:role,...> <event> <event> ... [DEADLOCK|HANG]    one logged schedule
-//	WN ... / RUN ...                                                    whole-node checks (node.go)
+//	TR <scenario> <tid:role[:cycle ns],...> <event> <event> ... [DEADLOCK|HANG]    one logged schedule
+//	WN ... / RUN ... / RN ... / SH ...                                  whole-node checks (node.go)
+//
+// roles: rx, app, tx / txc (event / cyclic message), txon / txcon (the same, cyclic transmission
+// already enabled when the transmitter starts and no token in the wake-up channel).
 //
 // Event tokens (numbers in hex; h = 1 iff the caller owned the node lock at the call):
 //
 //	L.t U.t  A.t.<hook|time|unm0|unm1|flag0|flag1|frame<v>|other>.h  HC.t.h  HR.t.ok  M.t.m.v.h
 //	RV.t.ok RF.t LK.t.known RE.t.ok  TI.t GW.t WK.t AC.t.a X.t.f.ok  SF.a.m.b WS.a.m OF.a.m OA.a
 //	CA  DN.t.code (1 nil, 0 the injected error, 2 another error)
+//	DL.t.<hook return>.<call>.<deadline|none>   after every X: what the frame transmitter saw of the
+//	                                            context it was handed (ns since the world's origin)
 //
 // Hidden events (Apply, Tick, TickTake) are not observable at the interfaces and are inserted by
 // the model driver.
@@ -52,8 +57,9 @@ func main() {
 	}
 	// 0. model traces from the exhaustive exploration (driver gen), forced one by one
 	for _, a := range os.Args[4:] {
-		if strings.HasPrefix(a, "dir=") {
-			f, err := os.Open(a[4:])
+		if strings.HasPrefix(a, "dir=") || strings.HasPrefix(a, "diron=") {
+			startOn := strings.HasPrefix(a, "diron=")
+			f, err := os.Open(a[strings.Index(a, "=")+1:])
 			if err != nil {
 				fmt.Fprintln(os.Stderr, err)
 				os.Exit(2)
@@ -62,7 +68,7 @@ func main() {
 			sc.Buffer(make([]byte, 1<<20), 1<<20)
 			for sc.Scan() && !tooAbnormal() {
 				if ln := sc.Text(); ln != "" {
-					emit(runDirected(ln))
+					emit(runDirected(ln, startOn))
 				}
 			}
 			f.Close()
@@ -98,6 +104,9 @@ func main() {
 		}
 		for k := 0; k < nt && !tooAbnormal(); k++ {
 			emit(runSchedule(tickScenario(), func(n int) int { return rng.Intn(n) }))
+			if k%2 == 0 {
+				emit(runSchedule(tickOnScenario(), func(n int) int { return rng.Intn(n) }))
+			}
 		}
 		rounds := 2
 		if budget >= 2000 {
